@@ -48,3 +48,52 @@ Theorem C09_supply_bound_needed : exists g ops t,
   (deliver (srun (init_chain g) ops) t).2 = Panic P_AMOUNT_TO_POWER.
 Proof. exact deliver_panics_reachable. Qed.
 Print Assumptions C09_supply_bound_needed.
+
+(* the history theorem with its hypothesis about the run discharged: a well-formed genesis document
+   (parameters in range, at most one validator, powers in the int64 range, balances in the uint256
+   range), a well-bracketed operation list whose transactions are as in C09_holds ([bracketed]
+   carries tx_wf, payload kind, parse flag and parameter documents that keep parameters well formed),
+   executed staking transactions with fresh hashes, withdrawal requests in the uint256 range and no
+   EVM execution ([txs_ok]), and genesis supply + rewards withdrawn during the run below 2^63 RIGO.
+   Nothing is assumed about intermediate states, and BeginBlock / EndBlock answering Ok is proved. *)
+From Rigo Require InvStake InvSupply InvReach.
+Theorem C09_holds_closed : forall g ops,
+  (params_ok (gen_params g) /\ (length (gen_validators g) <= 1)%nat /\
+   Forall (fun v : addr * Z => 0 <= v.2 < two63) (gen_validators g) /\
+   Forall (fun h : addr * Z => 0 <= h.2 < two256) (gen_holders g)) ->
+  bracketed Idle 0 ops ->
+  InvStake.fresh_run (init_chain g) ops ->
+  InvSupply.txs_ok ops ->
+  supply (work (init_chain g)) + InvReach.minted (init_chain g) ops < InvSupply.supply_bound ->
+  run_answers (init_chain g) ops.
+Proof. exact InvReach.C09_closed. Qed.
+Print Assumptions C09_holds_closed.
+
+(* the same with every hypothesis on the inputs: staking transactions carry pairwise distinct
+   non-zero hashes (instead of fresh_run), and the bound is on what the withdrawals of the list
+   request (instead of what the run withdrew) *)
+Theorem C09_holds_inputs : forall g ops,
+  (params_ok (gen_params g) /\ (length (gen_validators g) <= 1)%nat /\
+   Forall (fun v : addr * Z => 0 <= v.2 < two63) (gen_validators g) /\
+   Forall (fun h : addr * Z => 0 <= h.2 < two256) (gen_holders g)) ->
+  bracketed Idle 0 ops ->
+  NoDup (0%N :: InvReach.stake_hashes ops) ->
+  InvSupply.txs_ok ops ->
+  supply (work (init_chain g)) + InvReach.requested ops < InvSupply.supply_bound ->
+  run_answers (init_chain g) ops.
+Proof. exact InvReach.C09_closed_inputs. Qed.
+Print Assumptions C09_holds_inputs.
+
+(* and the run-level hypothesis of C09_holds itself holds at every point of such a run *)
+Theorem C09_run_facts_reachable : forall g ops,
+  (params_ok (gen_params g) /\ (length (gen_validators g) <= 1)%nat /\
+   Forall (fun v : addr * Z => 0 <= v.2 < two63) (gen_validators g) /\
+   Forall (fun h : addr * Z => 0 <= h.2 < two256) (gen_holders g)) ->
+  bracketed Idle 0 ops ->
+  InvStake.fresh_run (init_chain g) ops ->
+  InvSupply.txs_ok ops ->
+  supply (work (init_chain g)) + InvReach.minted (init_chain g) ops < InvSupply.supply_bound ->
+  forall pre post, ops = pre ++ post -> let l := work (srun (init_chain g) pre) in
+     (forall a d, dels l !! a = Some d -> delegatee_ok a d) /\ ranges_ok l /\ supply l < two63 * amountPerPower.
+Proof. exact InvReach.reach_facts. Qed.
+Print Assumptions C09_run_facts_reachable.
